@@ -35,7 +35,8 @@ class Contract:
         for k, v in kw.pop("loops", {}).items():
             self.loops[k] = {"inv": _labelled(v.get("inv", []), "inv"),
                              "modifies": v.get("modifies", []),
-                             "decreases": v.get("decreases"), "locals": v.get("locals", {}), "ghost_init": v.get("ghost_init", []), "ghost_step": v.get("ghost_step", [])}
+                             "decreases": v.get("decreases"), "locals": v.get("locals", {}), "ghost_init": v.get("ghost_init", []), "ghost_step": v.get("ghost_step", []),
+                             "membership_fact": v.get("membership_fact", False)}
         self.decreases = kw.pop("decreases", None)
         self.cycle = kw.pop("cycle", None)
         self.inline = kw.pop("inline", False)
